@@ -185,10 +185,10 @@ def member(coord, decl):
     if kind == "cont":
         if not is_number(coord):
             return False
-        if coord != coord:
-            return False
-        if coord == float("inf") or coord == float("-inf"):
-            return False
+        if not sym.is_symbolic(coord):          # a real-valued symbolic is finite by construction (DESIGN 2.3)
+            import math
+            if not math.isfinite(coord):
+                return False
         return decl[1] <= coord <= decl[2]
     if kind == "disc":
         return is_int(coord) and 0 <= coord < decl[1]
